@@ -8,6 +8,19 @@ def build(tier, seed):
                 funcs=funcs, cost=50, native=False, sample={'stripes': n, 'info words (time, bad, rehash, justsynced, unused)': 'symbolic', 'clock': 'symbolic', 'plan': 'full/new/bad/default/0..100 symbolic', 'olderthan': '-1..3650 symbolic'}) for n in range(1, nb + 1)] + [
          vf.Job('C15/negctl', ['C15_scrub.c', 'stubs/log_stubs.c'], units=U, entry='c15_negctl', defines=['NBLK=%d' % nb, 'NEGCTL'], cflags=vf.PATHMAX64, unwind=nb + 2, kind='negctl', native=False,
                 sample={'wrong_oracle': 'quota rounded down'})]
+    # one stripe of the real state_scrub_process (whole function) on the abstract data plane
+    UP = [vf.Unit('cmdline/scrub.c', flags=vf.PATHMAX64)]
+    pf = ['state_scrub_process', 'scrub_data_reader', 'scrub_parity_reader', 'block_is_enabled', 'info_get', 'info_set', 'info_make', 'info_set_bad', 'block_has_invalid_parity', 'block_has_file', 'block_has_updated_hash']
+    shapes = [(2, 1, []), (2, 1, ['FAULTS']), (2, 1, ['REHASH']), (2, 2, ['FAULTS']), (2, 1, ['FAULTS', 'REHASH', 'REORDER']), (3, 1, ['FAULTS']), (2, 1, ['FAULTS', 'HOLES=1'])]
+    if not quick: shapes += [(3, 2, ['FAULTS', 'REHASH']), (2, 3, ['FAULTS']), (4, 1, ['FAULTS']), (3, 1, ['FAULTS', 'HOLES=2']), (4, 2, ['FAULTS', 'REHASH']), (3, 6, ['FAULTS'])]
+    for nd, lv, ex in shapes:
+        J.append(vf.Job('C15/scrub_step/disks%d-level%d%s' % (nd, lv, ''.join('-' + e.lower().replace('=', '') for e in ex)), ['C15_process.c', 'stubs/log_stubs.c'], units=UP, entry='c15_scrub_step', defines=['ND=%d' % nd, 'LEVEL=%d' % lv] + ex, cflags=vf.PATHMAX64,
+                        unwind=18, flags=['--max-field-sensitivity-array-size', '160'],
+                        timeout=1800 if quick else 7200, mem_gb=12, native=False, decisive=r'VF:|unwinding', funcs=pf, cost=120,
+                        sample={'disks': nd, 'parity levels': lv, 'per disk': 'hole / empty / BLK / CHG / REP / DELETED, data equal or different from the record, attributes changed' + (', open / read faults' if 'FAULTS' in ex else ''),
+                                'per level': 'parity matching or not' + (', read faults' if 'FAULTS' in ex else ''), 'info word, clock': 'symbolic', 'hash migration pending': 'symbolic' if 'REHASH' in ex else False}))
+    J.append(vf.Job('C15/scrub_step/negctl', ['C15_process.c', 'stubs/log_stubs.c'], units=UP, entry='c15_scrub_step', defines=['ND=2', 'LEVEL=1', 'NEGCTL'], cflags=vf.PATHMAX64, unwind=18, flags=['--max-field-sensitivity-array-size', '160'],
+                    kind='negctl', native=False, decisive=r'VF:|unwinding', sample={'wrong_oracle': 'a silent error leaves the exit status at 0'}))
     return dict(jobs=J, bounds={'stripes': nb, 'olderthan_days': '<= 3650', 'clock': '32-bit seconds, after 1982'},
         assumptions=['state_scrub_process replaced by a recorder that runs the real block_is_enabled over all positions (the selection pass of the real loop)', 'qsort = insertion sort through the real comparison callback',
                      'parity_allocated_size, time(), malloc stubbed; no parity levels opened (level 0)'],
